@@ -757,6 +757,11 @@ end Witness
 example : IsImage (booted .coded) ∧ (booted .coded).cache.A.bySubProv.get (s "step", s "n0") ≠ none := by
   unfold IsImage; decide
 
+/-- the hypothesis of `admin_write_failure_restores` is met: a failing first database call -/
+example : (Auth.step .coded [1] (booted .coded) (.updateAdmin (s "a0") true)).2 = .storeFailed ∧
+    (Auth.step .coded [1] (booted .coded) (.removeAdmin (s "a0"))).2 = .badRequest ∧
+    (Auth.step .coded [1, 2] (booted .coded) (.updateAdmin (s "a0") true)).2 = .reloadFailed := by decide
+
 /-- **cache_eq_store / remove_provisioner_exact (refutation, code as it is)** — renaming a
     provisioner that has administrators is accepted and stored, but the administrator cache keeps
     the old name: the running CA no longer finds the admin under (subject, current name) although
